@@ -311,6 +311,16 @@ func symBinop(fr *frame, op token.Token, tx, ty types.Type, x, y value) value {
 		if fr.i.pc.branch(st.Eq(b, st.BVu(0, w))) {
 			rtPanic(fr, "integer divide by zero")
 		}
+		if fr.i.cfg.ConcretizeDivisors && b.op != OpConst {
+			// case-split on the divisor's feasible values: division by a constant is cheap for the solver
+			pc := fr.i.pc
+			if vals := pc.smallSet(b, 4); vals != nil {
+				k := pc.choose(len(vals))
+				c := pc.constLike(b, vals[k])
+				pc.addConstraint(st.Eq(b, c))
+				b = c
+			}
+		}
 		switch {
 		case op == token.QUO && signed:
 			r = st.SDiv(a, b)
